@@ -18,6 +18,8 @@ func main() {
 		scanMain(os.Args[2:])
 	case "wotsscan":
 		wotsScanMain(os.Args[2:])
+	case "challengescan":
+		challengeScanMain(os.Args[2:])
 	case "gen":
 		genMain(os.Args[2:])
 	case "cold":
